@@ -105,7 +105,7 @@ def tree_dir(flavor="asan"):
     return d
 
 
-def prune_builds(keep=2):
+def prune_builds(keep=5):
     if not BUILD.exists():
         return
     dirs = [d for d in BUILD.iterdir() if d.is_dir() and re.fullmatch(r"[0-9a-f]{16}", d.name)]
@@ -326,6 +326,13 @@ def run_lines(cmd, lines, timeout=1800, env=None):
     except subprocess.TimeoutExpired:
         return [], -9, "timeout"
     return p.stdout.splitlines(), p.returncode, p.stderr
+
+
+def locate_abort(cmd, lines, timeout=1800):
+    """After a harness abort: re-run with per-line flushing; returns (index of the op that did not answer, stderr tail).
+    Valid for harnesses that print exactly one line per op."""
+    out, rc, err = run_lines(cmd, lines, timeout, env={"VH_FLUSH": "1"})
+    return min(len(out), len(lines) - 1), err[-3000:]
 
 
 def run_model(component, lines, timeout=1800):
